@@ -72,7 +72,7 @@ def gen_plan(seed: int, tier: str) -> dict:
             else:
                 st = r.choice([0, 0, r.choice(CODES), r.choice([70402, 70410]), r.choice([-70499, -1, 12345, -7])])
             vec.append(st)
-        garble = r.choice([None, None, None, "dup", "nondict", "idless", "missing_ok", "zero207", "reorder"])
+        garble = r.choice([None, None, None, "dup", "nondict", "idless", "missing_ok", "zero207", "reorder", "float_status", "float_status"])
         req = {"kind": kind, "ids": [list(i) for i in ids], "status": vec, "garble": garble, "gseed": r.randrange(10**6)}
         if mode == "global":
             req["global"] = r.choice(CODES + [-70499])
@@ -113,6 +113,10 @@ def _garble(kind, gseed, entries: list, statuses: dict) -> list:
             out.remove(r.choice(oks))
     elif kind == "reorder":
         r.shuffle(out)
+    elif kind == "float_status":
+        # the same numbers written as JSON float literals (-70402.0): a JSON stack that keeps one number type does that, and the
+        # decoder hands the library a float
+        out = [dict(e, status=float(e["status"])) if isinstance(e, dict) and isinstance(e.get("status"), int) and not isinstance(e.get("status"), bool) else e for e in out]
     return out
 
 
